@@ -96,6 +96,11 @@ def build_tasks(tier, seed):
             for p in (2, 4, 6):
                 tasks.append((('lattice',) + c + (0.3,), p, True, False,
                               (16, 32), seed))
+    # badly scaled: gamma -> a^2 gamma (det gamma ~ 1e-10, curvature ~ 1/a^2)
+    tasks.append((('scaled', 0.02, 'L2', 'S3', 'G2', 'D1', 0.3), 8, True,
+                  False, (16, 32), seed))
+    tasks.append((('scaled', 30.0, 'L1', 'S2', 'G2', 'D1', 0.0), 4, True,
+                  False, (16, 32), seed))
     # exact families
     for p in ((4, 8) if tier == 'quick' else (2, 4, 6, 8)):
         tasks.append((('mink',), p, True, False, (16, 32), seed))
@@ -150,7 +155,7 @@ def judge(run, task, res):
             ok = e_lo <= 1e-9 and e_hi <= 1e-9
             why = f"algebraic/exact-stencil key: rel err {e_lo:.2e},{e_hi:.2e}"
         else:
-            cap = gc.CAPS[p] * (30 if desc[0] == 'schw' else 1)
+            cap = gc.CAPS[p] * (30 if desc[0] in ('schw', 'scaled') else 1)
             ok, why = gc.converges(e_lo, e_hi, p, cap=cap)
         if not ok:
             run.violation(f"C04:key={k}:{desc[0]}",
